@@ -189,8 +189,28 @@ def rule_units(ctx, py):
     disp = {}
     for n in ast.walk(f):
         if isinstance(n, ast.If) and isinstance(n.test, ast.Compare) and pyfe.src(n.test.left) == "policy" and \
-                isinstance(n.body[0], ast.Return):
+                isinstance(n.body[0], ast.Return) and len(n.test.ops) == 1 and isinstance(n.test.ops[0], ast.Eq):
             disp[ast.literal_eval(n.test.comparators[0])] = pyfe.src(n.body[0].value)
+    # the same dispatch written as a lookup table: tbl = {"closest": self.m, ..}; finder = tbl.get(policy) / tbl[policy];
+    # return finder(t)
+    from .. import pysym
+    defs = pysym.local_defs(f)
+    for r in [x for x in ast.walk(f) if isinstance(x, ast.Return) and isinstance(x.value, ast.Call)]:
+        fn_ = r.value.func
+        if isinstance(fn_, ast.Name) and fn_.id in defs:
+            fn_ = defs[fn_.id]
+        sel = None
+        if isinstance(fn_, ast.Call) and isinstance(fn_.func, ast.Attribute) and fn_.func.attr == "get" and fn_.args and \
+                pyfe.src(fn_.args[0]) == "policy":
+            sel = fn_.func.value
+        elif isinstance(fn_, ast.Subscript) and pyfe.src(fn_.slice) == "policy":
+            sel = fn_.value
+        if isinstance(sel, ast.Name) and sel.id in defs:
+            sel = defs[sel.id]
+        if isinstance(sel, ast.Dict) and all(isinstance(k_, ast.Constant) for k_ in sel.keys):
+            args = ", ".join(pyfe.src(a) for a in r.value.args)
+            for k_, v_ in zip(sel.keys, sel.values):
+                disp.setdefault(k_.value, "%s(%s)" % (pyfe.src(v_), args))
     want = {"closest": "self._get_sample_index_closest(t)", "infeq": "self._get_sample_index_infeq(t)",
             "supeq": "self._get_sample_index_supeq(t)"}
     for k, v in want.items():
